@@ -46,7 +46,15 @@ def gen_case(rnd, tier: str, i: Any) -> Dict[str, Any]:
                 if k > 0 and e.get("ph") == "X" and e.get("cat") in ("cuda_runtime", "cuda_driver") and isinstance(e.get("args"), dict) and rnd.random() < 0.5:
                     e["args"]["stream"] = rnd.choice(["0x0", "0x55d0c8a0", "0x7f3a00001c00"])
         files[f"rank{r}.json"] = tr
-    return {"files": files, "cfg": {"mode": rnd.choice(["parse", "load"]), "mp": rnd.random() < 0.3, "inc_last": rnd.random() < 0.5,
+    mode = rnd.choice(["parse", "load"])
+    if mode == "parse" and rnd.random() < 0.4:
+        # device-level sync records (stream -1) that carry no correlation id: device side by name, "no id" by the sentinel.
+        # Parse-only: with trimming such records are the recorded finding K2 of C01.
+        for tr in files.values():
+            for e in tr["traceEvents"]:
+                if e.get("cat") == "cuda_sync" and e.get("name") in ("Context Sync", "Event Sync") and isinstance(e.get("args"), dict) and rnd.random() < 0.6:
+                    e["args"].pop("correlation", None)
+    return {"files": files, "cfg": {"mode": mode, "mp": rnd.random() < 0.3, "inc_last": rnd.random() < 0.5,
                                     "parser": rnd.choice(drv.PARSER_VARIANTS)}}
 
 
